@@ -48,6 +48,7 @@ def run(ctx):
                               ("ties", "ties", {}, ctx.n(100, 8000)),
                               ("cma", "cma", {"cma": True}, ctx.n(160, 12000)),
                               ("cma-ties", "ties", {"cma": True}, ctx.n(80, 6000)),
+                              ("cma-tmin-edge", "tminedge", {"cma": True, "kinds": ("grid", "cvt")}, ctx.n(100, 6000)),
                               ("collide", "collide", {}, ctx.n(100, 6000))]:
         ctx.explore(name, gen(prof, **kw), run_case, n, nontrivial=archlib.nontrivial_c01, time_budget=budget)
     # remapping insertions of SlidingBoundariesArchive and ProximityArchive with local competition
